@@ -1,5 +1,5 @@
 (* Proofs about model/Workers.v. *)
-From Coq Require Import NArith PeanoNat List Bool Lia.
+From Coq Require Import NArith PeanoNat List Bool Lia Permutation.
 From LV Require Import model.Workers.
 Import ListNotations.
 
@@ -21,14 +21,22 @@ Proof.
 Qed.
 
 Lemma wk_inv_step s ev :
-  wk_inv s -> match ev with WEnqueue id _ => ~ In id (p_accepted s) | _ => True end -> wk_inv (fst (wstep s ev)).
+  wk_inv s -> match ev with WEnqueue id _ | WHandToDrain id => ~ In id (p_accepted s) | _ => True end -> wk_inv (fst (wstep s ev)).
 Proof.
-  intros [Hn Hi] Hf. unfold wk_inv. destruct ev as [id pq | w pq | w | | ]; cbn [wstep].
-  - destruct (p_quit s && (negb (Nat.ltb (length (p_queue s)) (p_cap s)) || pq)); [split; assumption|].
-    destruct (Nat.ltb (length (p_queue s)) (p_cap s)); [|split; assumption]. cbn [fst p_ran p_queue p_accepted]. split.
-    + rewrite app_assoc. apply nodup_snoc; [exact Hn|]. intros H. apply Hf, Hi, H.
-    + intros x Hx. rewrite app_assoc in Hx. apply in_app_iff in Hx. apply in_app_iff.
-      destruct Hx as [Hx | [<- | []]]; [left; auto | right; left; reflexivity].
+  intros [Hn Hi] Hf. unfold wk_inv. destruct ev as [id pq | w pq | w | | | id]; cbn [wstep].
+  - set (meet := match p_cap s with O => first_idle (p_workers s) | S _ => None end).
+    destruct (p_quit s && _); [split; assumption|].
+    destruct (Nat.ltb (length (p_queue s)) (p_cap s)).
+    + cbn [fst p_ran p_queue p_accepted]. split.
+      * rewrite app_assoc. apply nodup_snoc; [exact Hn|]. intros H. apply Hf, Hi, H.
+      * intros x Hx. rewrite app_assoc in Hx. apply in_app_iff in Hx. apply in_app_iff.
+        destruct Hx as [Hx | [<- | []]]; [left; auto | right; left; reflexivity].
+    + destruct meet; [|split; assumption]. cbn [fst p_ran p_queue p_accepted]. split.
+      * rewrite <- app_assoc. cbn [app].
+        eapply Permutation_NoDup; [apply Permutation_middle|].
+        constructor; [intros H; apply Hf, Hi, H | exact Hn].
+      * intros x Hx. rewrite <- app_assoc in Hx. cbn [app] in Hx. apply in_app_iff.
+        apply in_app_iff in Hx. destruct Hx as [Hx | [<- | Hx]]; [left; apply Hi, in_app_iff; auto | right; left; reflexivity | left; apply Hi, in_app_iff; auto].
   - destruct (nth_error (p_workers s) w) as [[| |]|]; try (split; assumption).
     destruct (p_queue s) as [|h r] eqn:Eq; try rewrite Eq in Hn; try rewrite Eq in Hi.
     + destruct (p_quit s); cbn [fst p_ran p_queue p_accepted]; rewrite ?Eq; split; assumption.
@@ -39,6 +47,8 @@ Proof.
   - cbn [fst p_ran p_queue p_accepted]. split; [now apply nodup_tl|].
     intros x Hx. apply Hi. apply in_app_iff in Hx. apply in_app_iff. destruct Hx as [Hx|Hx]; [auto | right].
     destruct (p_queue s); [exact Hx | right; exact Hx].
+  - destruct (p_cap s); [|split; assumption]. cbn [fst p_ran p_queue p_accepted].
+    split; [exact Hn | intros x Hx; apply in_app_iff; left; apply Hi, Hx].
 Qed.
 
 Lemma nodup_app_l {A} (a b : list A) : NoDup (a ++ b) -> NoDup a.
@@ -76,29 +86,44 @@ Proof.
   f_equal. apply H. eapply nth_error_In; eauto.
 Qed.
 
+Lemma first_idle_none ws : (forall x, In x ws -> x = WExit) -> first_idle ws = None.
+Proof.
+  induction ws as [|a ws IH]; intros H; cbn; [reflexivity|].
+  rewrite (H a (or_introl eq_refl)). rewrite IH; [reflexivity | intros x Hx; apply H; right; exact Hx].
+Qed.
+
 (* once Stop has returned nothing is ever started again, whatever happens (including Enqueue calls
    that still succeed because the buffer has room: their closures stay queued for ever) *)
 Theorem workers_nothing_after_stop s ev :
   stopped s -> stopped (fst (wstep s ev)) /\ p_ran (fst (wstep s ev)) = p_ran s /\
   match snd (wstep s ev) with OStart _ => False | _ => True end.
 Proof.
-  intros [Hq Hw]. destruct ev as [id pq | w pq | w | | ]; cbn [wstep].
-  - rewrite Hq. cbn [andb]. destruct (negb (Nat.ltb (length (p_queue s)) (p_cap s)) || pq); cbn [fst snd].
+  intros [Hq Hw]. destruct ev as [id pq | w pq | w | | | id]; cbn [wstep].
+  - rewrite Hq, (first_idle_none _ Hw). cbn [andb].
+    replace (match p_cap s with O => None | S _ => None end) with (@None nat) by (destruct (p_cap s); reflexivity).
+    rewrite orb_false_r.
+    destruct (negb (Nat.ltb (length (p_queue s)) (p_cap s)) || pq); cbn [fst snd].
     + repeat split; auto.
     + destruct (Nat.ltb (length (p_queue s)) (p_cap s)); cbn [fst snd p_ran]; repeat split; auto.
   - destruct (nth_error_exit s w Hw) as [E|E]; rewrite E; cbn [fst snd]; repeat split; auto.
   - destruct (nth_error_exit s w Hw) as [E|E]; rewrite E; cbn [fst snd]; repeat split; auto.
   - cbn [fst snd p_ran]. repeat split; auto.
   - cbn [fst snd p_ran]. repeat split; auto.
+  - destruct (p_cap s); cbn [fst snd p_ran]; repeat split; auto.
 Qed.
 
-(* Enqueue after close(quit): fails when the buffer is full; when there is room the select may pick
-   either case - "Enqueue after Stop fails" is NOT guaranteed by the code *)
+(* Enqueue after close(quit): fails when the buffer is full and no worker is parked to take it by
+   rendezvous; when it can complete, the select may pick either case - "Enqueue after Stop fails" is NOT
+   guaranteed by the code *)
 Theorem workers_enqueue_after_quit_full s id pq :
-  p_quit s = true -> (p_cap s <= length (p_queue s))%nat -> wstep s (WEnqueue id pq) = (s, OEnq id false).
+  p_quit s = true -> (p_cap s <= length (p_queue s))%nat ->
+  (p_cap s = 0%nat -> first_idle (p_workers s) = None) ->
+  wstep s (WEnqueue id pq) = (s, OEnq id false).
 Proof.
-  intros Hq Hfull. cbn [wstep]. rewrite Hq.
+  intros Hq Hfull Hm. cbn [wstep]. rewrite Hq.
   replace (Nat.ltb (length (p_queue s)) (p_cap s)) with false by (symmetry; apply Nat.ltb_ge; exact Hfull).
+  replace (match p_cap s with O => first_idle (p_workers s) | S _ => None end) with (@None nat)
+    by (destruct (p_cap s); [symmetry; apply Hm; reflexivity | reflexivity]).
   reflexivity.
 Qed.
 
@@ -112,3 +137,214 @@ Proof. cbn. repeat split; auto. intros w [<-|[]]. reflexivity. Qed.
 Example workers_run_after_quit_before_stop :
   snd (wrun (pool_init 2 1) [WEnqueue 1%N false; WQuit; WTake 0 false]) = [OEnq 1%N true; ONone; OStart 1%N].
 Proof. reflexivity. Qed.
+
+(* unbuffered pool (maxTasks = 0): Enqueue completes exactly by rendezvous with a parked worker, which
+   starts the closure at once; with no parked worker it blocks *)
+Example workers_unbuffered_rendezvous :
+  let '(s, o) := wstep (pool_init 0 2) (WEnqueue 5%N false) in
+  o = OEnq 5%N true /\ p_ran s = [5%N] /\ p_workers s = [WRun 5%N; WIdle] /\
+  snd (wstep (fst (wrun (pool_init 0 1) [WEnqueue 5%N false])) (WEnqueue 6%N false)) = ONone.
+Proof. cbn. auto. Qed.
+
+(* progress of the pool: with room in the buffer (or a parked worker) and quit open, Enqueue does not
+   block; a parked worker's select starts the oldest queued closure *)
+Theorem workers_enqueue_room s id pq :
+  p_quit s = false -> (length (p_queue s) < p_cap s)%nat -> snd (wstep s (WEnqueue id pq)) = OEnq id true.
+Proof.
+  intros Hq Hr. cbn [wstep]. rewrite Hq. cbn [andb].
+  replace (Nat.ltb (length (p_queue s)) (p_cap s)) with true by (symmetry; apply Nat.ltb_lt; exact Hr). reflexivity.
+Qed.
+Theorem workers_take_starts_oldest s w pq h r :
+  p_quit s = false -> nth_error (p_workers s) w = Some WIdle -> p_queue s = h :: r ->
+  snd (wstep s (WTake w pq)) = OStart h /\ p_queue (fst (wstep s (WTake w pq))) = r.
+Proof. intros Hq Hw Hqu. cbn [wstep]. rewrite Hw, Hqu, Hq. cbn. auto. Qed.
+
+(* ====================== every model run passes the harness check ====================== *)
+
+Lemma all_exited_stopped s : all_exited s = true -> stopped s.
+Proof.
+  unfold all_exited, stopped. intros H. apply andb_true_iff in H. destruct H as [H1 H2]. split; [exact H1|].
+  intros w Hw. rewrite forallb_forall in H2. specialize (H2 w Hw). destruct w; [discriminate | discriminate | reflexivity].
+Qed.
+
+Lemma wk_late_false tr : forall s, wk_late s tr = false.
+Proof.
+  induction tr as [|ev tr IH]; intros s; cbn [wk_late]; [reflexivity|]. rewrite IH, orb_false_r.
+  destruct (all_exited s) eqn:E; [|reflexivity].
+  destruct (workers_nothing_after_stop s ev (all_exited_stopped s E)) as (_ & _ & H).
+  destruct (snd (wstep s ev)); try reflexivity. contradiction.
+Qed.
+
+(* the Enqueue records of a run: ids are enqueue ids of the trace in order; accepted = those with ok *)
+Lemma wk_enqs_ids tr : forall s, exists l, map fst (wk_enqs s tr) = l /\ (forall x, In x l -> In x (enq_ids tr)) /\
+  (NoDup (enq_ids tr) -> NoDup l).
+Proof.
+  induction tr as [|ev tr IH]; intros s; cbn [wk_enqs enq_ids flat_map].
+  - exists []. split; [reflexivity|]. split; [intros x [] | intros _; constructor].
+  - destruct (IH (fst (wstep s ev))) as (l & El & Hin & Hnd).
+    assert (Hout : forall id ok, snd (wstep s ev) = OEnq id ok -> match ev with WEnqueue i _ | WHandToDrain i => i = id | _ => False end).
+    { intros id ok. destruct ev as [i pq | w pq | w | | | i]; cbn [wstep].
+      - destruct (p_quit s && _); [intros H; inversion H; reflexivity|].
+        destruct (Nat.ltb _ _); [intros H; inversion H; reflexivity|].
+        destruct (match p_cap s with O => first_idle (p_workers s) | S _ => None end); intros H; inversion H; reflexivity.
+      - destruct (nth_error _ _) as [[| |]|]; try discriminate. destruct (p_queue s); [destruct (p_quit s); discriminate|].
+        destruct (p_quit s && pq); discriminate.
+      - destruct (nth_error _ _) as [[| |]|]; discriminate.
+      - discriminate.
+      - discriminate.
+      - destruct (p_cap s); [intros H; inversion H; reflexivity | discriminate]. }
+    destruct (snd (wstep s ev)) as [id ok| |] eqn:Eo.
+    + specialize (Hout id ok eq_refl). exists (id :: l). cbn [map fst]. rewrite El.
+      assert (Eids : enq_ids (ev :: tr) = id :: enq_ids tr)
+        by (destruct ev; try contradiction; subst; reflexivity).
+      change (flat_map _ tr) with (enq_ids tr). change (_ ++ enq_ids tr) with (enq_ids (ev :: tr)). rewrite Eids.
+      split; [reflexivity|]. split.
+      * intros x [<-|Hx]; [left; reflexivity | right; auto].
+      * intros H. inversion H as [|? ? Hni Hn]; subst. constructor; [intros Hx; apply Hni, Hin, Hx | auto].
+    + exists l. split; [exact El|]. change (flat_map _ tr) with (enq_ids tr). split.
+      * intros x Hx. apply in_app_iff. right. auto.
+      * intros H. apply Hnd. clear - H. induction (match ev with WEnqueue id _ | WHandToDrain id => [id] | _ => [] end) as [|a l IH]; [exact H|].
+        cbn [app] in H. inversion H; auto.
+    + exists l. split; [exact El|]. change (flat_map _ tr) with (enq_ids tr). split.
+      * intros x Hx. apply in_app_iff. right. auto.
+      * intros H. apply Hnd. clear - H. induction (match ev with WEnqueue id _ | WHandToDrain id => [id] | _ => [] end) as [|a l IH]; [exact H|].
+        cbn [app] in H. inversion H; auto.
+Qed.
+
+Lemma accepted_step s ev :
+  p_accepted (fst (wstep s ev)) =
+  p_accepted s ++ match snd (wstep s ev) with OEnq id true => [id] | _ => [] end.
+Proof.
+  destruct ev as [i pq | w pq | w | | | i]; cbn [wstep].
+  - destruct (p_quit s && _); [cbn; now rewrite app_nil_r|].
+    destruct (Nat.ltb _ _); [reflexivity|].
+    destruct (match p_cap s with O => first_idle (p_workers s) | S _ => None end); cbn; [reflexivity | now rewrite app_nil_r].
+  - destruct (nth_error _ _) as [[| |]|]; cbn; try now rewrite app_nil_r.
+    destruct (p_queue s); [destruct (p_quit s); cbn; now rewrite app_nil_r|].
+    destruct (p_quit s && pq); cbn; now rewrite app_nil_r.
+  - destruct (nth_error _ _) as [[| |]|]; cbn; now rewrite app_nil_r.
+  - cbn. now rewrite app_nil_r.
+  - cbn. now rewrite app_nil_r.
+  - destruct (p_cap s); cbn; [reflexivity | now rewrite app_nil_r].
+Qed.
+
+Lemma accepted_run tr : forall s,
+  p_accepted (fst (wrun s tr)) = p_accepted s ++ map fst (filter (fun e => fst (snd e)) (wk_enqs s tr)).
+Proof.
+  induction tr as [|ev tr IH]; intros s; cbn [wrun wk_enqs]; [cbn; now rewrite app_nil_r|].
+  pose proof (accepted_step s ev) as Ha. specialize (IH (fst (wstep s ev))).
+  destruct (wstep s ev) as [s1 o] eqn:E. cbn [fst snd] in *.
+  destruct (wrun s1 tr) as [s2 os] eqn:Er. cbn [fst] in *. rewrite IH, Ha.
+  destruct o as [id ok| |]; cbn [filter map fst snd]; try (now rewrite app_nil_r).
+  destruct ok; cbn [filter map fst snd]; [now rewrite <- app_assoc | now rewrite app_nil_r].
+Qed.
+
+Lemma refusal_needs_quit s ev id : snd (wstep s ev) = OEnq id false -> p_quit s = true.
+Proof.
+  destruct ev as [i pq | w pq | w | | | i]; cbn [wstep].
+  - destruct (p_quit s) eqn:Eq; [reflexivity|]. cbn [andb].
+    destruct (Nat.ltb _ _); [discriminate|].
+    destruct (match p_cap s with O => first_idle (p_workers s) | S _ => None end); discriminate.
+  - destruct (nth_error _ _) as [[| |]|]; try discriminate. destruct (p_queue s); [destruct (p_quit s); discriminate|].
+    destruct (p_quit s && pq); discriminate.
+  - destruct (nth_error _ _) as [[| |]|]; discriminate.
+  - discriminate.
+  - discriminate.
+  - destruct (p_cap s); discriminate.
+Qed.
+
+Lemma wk_enqs_refusal tr : forall s id ok aq, In (id, (ok, aq)) (wk_enqs s tr) -> ok = false -> aq = true.
+Proof.
+  induction tr as [|ev tr IH]; intros s id ok aq H Hok; cbn [wk_enqs] in H; [contradiction|].
+  destruct (snd (wstep s ev)) as [i o| |] eqn:Eo.
+  - destruct H as [E|H]; [|exact (IH _ _ _ _ H Hok)]. inversion E; subst. apply (refusal_needs_quit s ev id). exact Eo.
+  - exact (IH _ _ _ _ H Hok).
+  - exact (IH _ _ _ _ H Hok).
+Qed.
+
+Lemma nodup_app_r' {A} (a b : list A) : NoDup (a ++ b) -> NoDup b.
+Proof. induction a as [|x a IH]; cbn; [auto|]. intros H. inversion H; auto. Qed.
+
+Lemma enq_ids_cons ev tr : enq_ids (ev :: tr) = enq_ids [ev] ++ enq_ids tr.
+Proof. unfold enq_ids. cbn [flat_map]. now rewrite app_nil_r. Qed.
+
+Lemma fresh_from_nodup tr : forall s seen,
+  (forall x, In x (p_accepted s) -> In x seen) -> NoDup (seen ++ enq_ids tr) -> fresh_ids s tr.
+Proof.
+  induction tr as [|ev tr IH]; intros s seen Hsub Hnd; cbn [fresh_ids]; [exact I|].
+  rewrite enq_ids_cons in Hnd.
+  split.
+  - destruct ev as [i pq | w pq | w | | | i]; try exact I.
+    + intros Hin. apply Hsub in Hin. unfold enq_ids at 1 in Hnd. cbn [flat_map app] in Hnd.
+      apply NoDup_remove_2 in Hnd. apply Hnd, in_app_iff. left. exact Hin.
+    + intros Hin. apply Hsub in Hin. unfold enq_ids at 1 in Hnd. cbn [flat_map app] in Hnd.
+      apply NoDup_remove_2 in Hnd. apply Hnd, in_app_iff. left. exact Hin.
+  - apply (IH _ (seen ++ enq_ids [ev])).
+    + intros x Hx. rewrite accepted_step in Hx. apply in_app_iff in Hx. apply in_app_iff.
+      destruct Hx as [Hx|Hx]; [left; auto | right].
+      destruct (snd (wstep s ev)) as [i ok| |] eqn:Eo; try contradiction. destruct ok; [|contradiction].
+      destruct Hx as [<-|[]].
+      destruct ev as [j pq | w pq | w | | | j]; cbn [wstep] in Eo.
+      * destruct (p_quit s && _); [inversion Eo|]. destruct (Nat.ltb _ _); [inversion Eo; left; reflexivity|].
+        destruct (match p_cap s with O => first_idle (p_workers s) | S _ => None end); inversion Eo. left. reflexivity.
+      * destruct (nth_error _ _) as [[| |]|]; try discriminate. destruct (p_queue s); [destruct (p_quit s); discriminate|].
+        destruct (p_quit s && pq); discriminate.
+      * destruct (nth_error _ _) as [[| |]|]; discriminate.
+      * discriminate.
+      * discriminate.
+      * destruct (p_cap s); inversion Eo. left. reflexivity.
+    + rewrite <- app_assoc. exact Hnd.
+Qed.
+
+Lemma count_occ_nodup x l : NoDup l -> (count_occ_N x l <= 1)%nat.
+Proof.
+  unfold count_occ_N. induction 1 as [|a l Hni Hn IH]; cbn; [lia|].
+  destruct (x =? a)%N eqn:E; [|exact IH]. apply N.eqb_eq in E. subst. cbn.
+  replace (filter (N.eqb a) l) with (@nil N); [cbn; lia|].
+  symmetry. clear - Hni. induction l as [|b l IH]; cbn; [reflexivity|].
+  destruct (a =? b)%N eqn:E; [apply N.eqb_eq in E; subst; exfalso; apply Hni; left; reflexivity|].
+  apply IH. intros H. apply Hni. right. exact H.
+Qed.
+
+Lemma count_occ_notin x l : ~ In x l -> count_occ_N x l = 0%nat.
+Proof.
+  unfold count_occ_N. induction l as [|a l IH]; cbn; intros H; [reflexivity|].
+  destruct (x =? a)%N eqn:E; [apply N.eqb_eq in E; subst; exfalso; apply H; left; reflexivity|].
+  apply IH. intros Hx. apply H. right. exact Hx.
+Qed.
+
+(* Every run of the model, with any outcome of every random select, passes the check that the harness
+   applies to the real pool: the C16 worker-pool cases test utils/workers against this model. *)
+Theorem workers_model_passes_check cap n tr :
+  NoDup (enq_ids tr) ->
+  let s0 := pool_init cap n in
+  wk_check (wk_runs (fst (wrun s0 tr)) (enq_ids tr)) (wk_enqs s0 tr) (wk_late s0 tr) = true.
+Proof.
+  intros Hnd. cbn zeta. set (s0 := pool_init cap n). set (sf := fst (wrun s0 tr)).
+  assert (Hfresh : fresh_ids s0 tr) by (apply (fresh_from_nodup tr s0 []); [intros x [] | exact Hnd]).
+  destruct (workers_run_at_most_once cap n tr Hfresh) as [Hran Hacc]. fold s0 sf in Hran, Hacc.
+  unfold wk_check. rewrite wk_late_false. cbn [negb andb].
+  apply andb_true_iff. split.
+  - apply forallb_forall. intros r Hr. unfold wk_runs in Hr. apply in_map_iff in Hr. destruct Hr as (id & <- & _).
+    cbn [snd]. apply Nat.leb_le. now apply count_occ_nodup.
+  - apply forallb_forall. intros [id [ok aq]] He.
+    destruct ok; [reflexivity|]. cbn [orb].
+    rewrite (wk_enqs_refusal tr s0 id false aq He eq_refl), andb_true_r.
+    (* a refused id was never accepted, hence never run *)
+    assert (Hna : ~ In id (p_accepted sf)).
+    { unfold sf. rewrite accepted_run. cbn [p_accepted s0 pool_init app]. intros Hin.
+      apply in_map_iff in Hin. destruct Hin as ([id' [ok' aq']] & Eid & Hf). cbn [fst] in Eid. subst id'.
+      apply filter_In in Hf. destruct Hf as [Hf Hok]. cbn [fst snd] in Hok. subst ok'.
+      destruct (wk_enqs_ids tr s0) as (l & El & _ & Hndl). specialize (Hndl Hnd). rewrite <- El in Hndl.
+      clear - He Hf Hndl. induction (wk_enqs s0 tr) as [|[i [o a]] L IH]; [contradiction|].
+      cbn [map fst] in Hndl. inversion Hndl as [|? ? Hni Hn]; subst.
+      destruct He as [E|He], Hf as [E'|Hf].
+      - inversion E; inversion E'; congruence.
+      - inversion E; subst. apply Hni. change id with (fst (id, (true, aq'))). now apply in_map.
+      - inversion E'; subst. apply Hni. change id with (fst (id, (false, aq))). now apply in_map.
+      - now apply IH. }
+    destruct (find (fun r => (fst r =? id)%N) (wk_runs sf (enq_ids tr))) as [r|] eqn:F; [|reflexivity].
+    apply find_some in F. destruct F as [Hr Heq]. apply N.eqb_eq in Heq.
+    unfold wk_runs in Hr. apply in_map_iff in Hr. destruct Hr as (i & <- & _). cbn [fst snd] in *. subst i.
+    apply Nat.eqb_eq. apply count_occ_notin. intros Hin. apply Hna, Hacc, Hin.
+Qed.
